@@ -22,8 +22,15 @@ MANIFEST = {
 def run(chk):
     quick = chk.tier == "quick"
     cases = s5.enumerate_formspace(chk)
-    n = 60 if quick else 900
+    n = 50 if quick else 900
     sel = s5.sample_cases(cases, n, chk.seed, max_cost=40 if quick else None)
+    # cases that need the second derivatives of the geometry (Hessians, div/curl of Piola-mapped fields on bent cells)
+    bent = [c for c in cases if c["geom"] == "nonaffine" and (c["term"] == "hess" or (
+        c["elem"] in ("RT1", "N1", "RTCF1", "RTCE1", "RTxDG0") and c["term"] in ("divdiv", "curlcurl", "mixeddiv")))]
+    sel += [c for c in s5.sample_cases(bent, 8 if quick else 60, chk.seed + 9, max_cost=60) if c not in sel]
+    # transcendental functions
+    fn = [c for c in cases if c["term"] in ("mathfn", "mathfn2", "bessel")]
+    sel += [c for c in s5.sample_cases(fn, 5 if quick else 60, chk.seed + 10, max_cost=30) if c not in sel]
     items = [{"case": c, "seed": chk.seed * 100003 + i, "scalar": "float64", "ninputs": 2 if quick else 3,
               "prefill": i % 2 == 1} for i, c in enumerate(sel)]
     recs = s5.run_items(chk, items, nworkers=4 if quick else 6)
